@@ -6,6 +6,7 @@ saved and reloaded again, is itself, and it stays inside the domain, so the seco
 The theorems speak about quantised objects (every real carried as the digits the format prints).
 -/
 import Iodata.Lemmas.Fmt.FcidumpW
+import Iodata.Lemmas.Fmt.PoscarW
 import Iodata.Gen.LayoutsW
 
 namespace Iodata.Props.C15W
@@ -27,5 +28,38 @@ theorem fcidump_generations (L : FcidumpW.Layout) (hL : FcidumpW.LayoutOK L) (o 
   rw [FcidumpW.load_dump L hL o h] at h₁
   cases h₁
   rw [FcidumpW.load_dump L hL _ (FcidumpW.dom_norm L o h), FcidumpW.norm_idem]
+
+/-! ## POSCAR (text layer)
+
+The theorems are about the numbers *as printed* (cell rows in angstrom and direct coordinates, 16 decimals each): on these,
+save/reload is the identity up to the grouping, and the grouping is idempotent.  The known last-digit drift of the real code
+(`known_findings.json`: C15-poscar-last-digit-drift) is outside these statements in exactly two places, both floating-point
+maps between an `IOData` object and the printed numbers: (1) `fl(fl(inv(cell))ᵀ·r)` followed by rounding to 16 decimals,
+applied to `r = fl(s·cell)`, need not return the 16-decimal `s` it came from (error ≈ cond(cell)·2⁻⁵², above the half unit
+5·10⁻¹⁷ of the last printed digit); (2) `fl(fl(c·Å)/Å)` printed with 16 decimals shows digits below the precision of a
+double for |c| ≥ 1 Å.  In exact arithmetic both maps are the identity (`poscar_exact_cycle`), so the drift is confined to
+the trailing digits of the numeric columns: titles, element/count lines, atom order and the line structure are stable
+(`poscar_norm_stable`), which the `dump-gen2:poscar` stream checks byte for byte on the real code. -/
+
+/-- POSCAR: the object returned by the first reload is a fixed point of save/reload (already grouped, title defaulted)
+and stays in the domain. -/
+theorem poscar_norm_stable (T : Tables) (L : PoscarW.Layout) (hL : PoscarW.LayoutOK L) (o : PoscarW.Obj) (h : PoscarW.Dom T o) :
+    PoscarW.norm L (PoscarW.norm L o).obj = PoscarW.norm L o ∧ PoscarW.Dom T (PoscarW.norm L o).obj :=
+  ⟨PoscarW.norm_idem L hL o, PoscarW.dom_norm T L hL o h⟩
+
+/-- POSCAR: generations on the printed numbers. -/
+theorem poscar_generations (T : Tables) (L : PoscarW.Layout) (hL : PoscarW.LayoutOK L) (o : PoscarW.Obj) (x₁ : PoscarW.Loaded)
+    (h : PoscarW.Dom T o) (h₁ : PoscarW.load T L (PoscarW.dump T L o) = .ok x₁) :
+    PoscarW.load T L (PoscarW.dump T L x₁.obj) = .ok x₁ := by
+  rw [PoscarW.load_dump T L hL o h] at h₁
+  cases h₁
+  rw [PoscarW.load_dump T L hL _ (PoscarW.dom_norm T L hL o h), PoscarW.norm_idem L hL]
+
+/-- POSCAR: in exact arithmetic the two coordinate maps are inverse in both directions for every non-singular cell, so a
+second cycle would print the same direct coordinates and reload the same Cartesian ones; the drift of the real code is
+floating-point rounding only. -/
+theorem poscar_exact_cycle (cell : Poscar.M3) (h : Poscar.det cell ≠ 0) (s r : Poscar.V3) :
+    Poscar.toFrac cell (Poscar.toCart cell s) = s ∧ Poscar.toCart cell (Poscar.toFrac cell r) = r :=
+  ⟨Poscar.toFrac_toCart cell h s, Poscar.toCart_toFrac cell h r⟩
 
 end Iodata.Props.C15W
